@@ -103,7 +103,7 @@ def run_driver(ctx, scens, tag="t", udp=False):
         raise vlib.MachineryError("lifecycle driver keeps crashing:\n" + out[-2000:])
     vlib.write_ndjson(tp, events)
     if udp:
-        # the real Abaco source over localhost UDP (no gates): failed start without data, start with data, stop, restart
+        # the real Abaco source over localhost UDP (free-running cycles, then cycles with the receiver goroutine gated): failed start without data, start with data, stop, restart
         tu = ctx.path("trace_%s_udp.ndjson" % tag)
         rc, out = vlib.go_test(ctx, "", UDP, "TestVerifAbacoUDP$", env={"VERIF_OUT": tu}, timeout=600)
         if rc != 0:
@@ -112,7 +112,13 @@ def run_driver(ctx, scens, tag="t", udp=False):
         nscen = max([e["scen"] for e in ev if e["ev"] == "Begin"] or [0])
         extra = vlib.read_ndjson(tu)
         ev.append({"ev": "Begin", "scen": nscen + 1, "origin": "abaco-udp-localhost", "producer": "abaco-udp"})
+        gated = [e for e in extra if e["ev"] == "UDPGated"]
+        if not gated or gated[0]["gated"] < 1:
+            raise vlib.MachineryError("abaco udp driver: the receiver goroutine never reached its gate (hook AbacoUDP.loop missing?)")
+        ctx.notes["abaco_udp_gated_stops"] = gated[0]["gated"]
         for e in extra:
+            if e["ev"] == "UDPGated":
+                continue
             e["scen"] = nscen + 1
             ev.append(e)
         vlib.write_ndjson(tp, ev)
